@@ -252,8 +252,10 @@ TrialF(p, fr) ==
   /\ pc' = "LSG"
   /\ UNCHANGED <<cfg, chain, nit, njev, nit0, n0, f0r, x, fx, fAt, gAt, pg, mem, matsOf, task, success,
                  calls, lastCb, snap, gen, fgen, uphill, fault, out>>
+\* (the design passes p = ls.pend; a real trace whose gradient evaluation is at another point is followed and judged
+\* by the trace clause C05_GradAtTrialPoint instead of being a structural divergence)
 TrialG(p, pgf) ==
-  /\ pc = "LSG" /\ p = ls.pend
+  /\ pc = "LSG"
   /\ CountG(p)
   /\ ls' = [ls EXCEPT !.trials[Len(ls.trials)].pg = pgf]
   /\ pc' = "LSF"
@@ -314,8 +316,8 @@ AccGHit ==
   /\ gAt' = x /\ pg' = ls.accPg /\ pc' = AfterAcc
   /\ UNCHANGED <<cfg, chain, nit, nfev, njev, nit0, n0, f0r, x, fx, fAt, memo, mem, matsOf, ls,
                  task, success, calls, lastCb, snap, npts, gen, fgen, uphill, fault, out>>
-AccGEval(p, pgf) ==
-  /\ pc = "AccG" /\ p = x
+AccGEval(p, pgf) ==      \* (same remark: C05_GradAtIterate in traces)
+  /\ pc = "AccG"
   /\ CountG(p) /\ gAt' = p /\ pg' = pgf /\ pc' = AfterAcc
   /\ UNCHANGED <<cfg, chain, nit, nfev, nit0, n0, f0r, x, fx, fAt, mem, matsOf, ls,
                  task, success, calls, lastCb, snap, npts, gen, fgen, uphill, fault, out>>
